@@ -442,7 +442,7 @@ type c18Call struct {
 
 const (
 	c18WalkBytes = 100 // the walker stops descending once it has read this many times the image size from the device (not a violation: the cost of a walk is calls x directory size; a deterministic measure, unlike CPU time)
-	c18CallCPU = 5.0  // s of CPU a single library call may take on a <= 17 MiB image
+	c18CallCPU = 5.0  // s of CPU a single library call may take, plus 1 s per 8 MiB of image
 )
 
 // c18Walk opens and walks the image; returns the number of files read, whether an error surfaced and the
@@ -641,7 +641,8 @@ func (p c18) Exec(t *core.Trace) *core.Result {
 		if img.OversizeRead > 0 {
 			return &core.Violation{Clause: "C18.disproportionate-read", Trigger: trig, Locus: img.OversizeLocus, Detail: fmt.Sprintf("single read request of %d bytes on a %d-byte image\nfaults: %v", img.OversizeRead, imgSize, ops)}
 		}
-		if worst.Sec > c18CallCPU {
+		// (the allowance grows with the image: a call may have to parse tables as large as the image itself)
+		if worst.Sec > c18CallCPU+float64(imgSize)/float64(8<<20) {
 			return &core.Violation{Clause: "C18.slow", Trigger: trig, Locus: "filesystem/" + kindPkg(kind), Detail: fmt.Sprintf("a single %s call took %.1f s of CPU time on a %d-byte image\nfaults: %v", worst.What, worst.Sec, imgSize, ops)}
 		}
 		if worst.Truncated {
